@@ -519,7 +519,7 @@ pub fn gen(r: &mut Rng, d: u32, cfg: &GenCfg) -> Ast {
                 }
                 13 if allowed(cfg, "array") => Some(Ast::Array(vec![vec![Ast::Num("1".into()), Ast::Num("2".into())], vec![Ast::Num("3".into()), Ast::Str("z".into())]])),
                 14 if allowed(cfg, "structured-ref") => Some(Ast::Opaque((*r.pick(&["Table1[Col1]", "Table1[[#This Row],[Amount]]", "T[#All]"])).to_string())),
-                15 if allowed(cfg, "external-ref") => Some(Ast::Opaque((*r.pick(&["[1]Sheet1!A1", "[2]Data!$B$2:$C$3", "'[1]My Sheet'!A1"])).to_string())),
+                15 if allowed(cfg, "external-ref") => Some(Ast::Opaque((*r.pick(&["[1]Sheet1!A1", "[2]Data!$B$2:$C$3", "'[1]My Sheet'!A1", "[2]Data2!B2:C3", "[3]Data2!$A$1", "'[Book 2.xlsx]Data2'!A5:B6"])).to_string())),
                 _ => None,
             };
             if let Some(c) = cand {
